@@ -150,6 +150,15 @@ def pipeline(ctx):
     pts = P(ci)
     s0 = _simplify(ctx, p, ci)
     reduced, removed = R(s0, 0), R(s0, 1)
+    sibs = [j for j in ctx.curves() if j != ci and (ctx.pool[j].get('sibling') == ci or ctx.pool[ci].get('sibling') == j
+                                                    or (ctx.pool[j].get('sibling') is not None and ctx.pool[j].get('sibling') == ctx.pool[ci].get('sibling')))]
+    if sibs and rng.random() < 0.5:
+        # the same call on a look-alike curve right afterwards (always compared with a pristine process)
+        import copy as _copy
+        again = _copy.deepcopy(p.steps[s0])
+        again['args'][0] = P(rng.choice(sibs))
+        again['probe'] = True
+        p.steps.append(again)
     s1 = p.call('caller.take', pts, reduced)
     pr = R(s1)
     if rng.random() < 0.3:
